@@ -71,8 +71,11 @@ def case(draw):
         elif k == "desc":
             e = draw(desc_edit(cur, sources, extra_id))
             if e is not None:
-                apply_desc_edit(cur, e)
-                ops.append({"op": "desc", "edit": e})
+                trial = copy.deepcopy(cur)
+                apply_desc_edit(trial, e)
+                if is_acyclic(trial):      # DAG by construction: an edit that would close a cycle is dropped
+                    apply_desc_edit(cur, e)
+                    ops.append({"op": "desc", "edit": e})
         elif k == "build":
             ops.append(draw(build_op(cur)))
     ops.append(draw(build_op(cur)))
@@ -138,6 +141,26 @@ def desc_edit(draw, cur, sources, extra_id):
             return {"kind": "add-cmd", "cmd": {"name": "G%d" % extra_id[0], "tool": "shell", "inputs": ins,
                                               "outputs": [s], "salt": "g"}, "target": None, "front": True}
     return None
+
+
+def is_acyclic(desc):
+    prod = bm.producers(desc)
+    state = {}
+
+    def visit(c):
+        st_ = state.get(c["name"])
+        if st_ == 1:
+            return False
+        if st_ == 2:
+            return True
+        state[c["name"]] = 1
+        for i in c.get("inputs", []):
+            p = prod.get(i)
+            if p is not None and not visit(p):
+                return False
+        state[c["name"]] = 2
+        return True
+    return all(visit(c) for c in desc["commands"])
 
 
 def apply_desc_edit(desc, e):
@@ -219,6 +242,8 @@ def run_case(case, ctx, verbose=False):
         if r.crashed():
             return "build %d: front end crashed (rc=%s): %s" % (nb, r.rc, r.stderr[-600:])
         roots = roots_of(desc, op)
+        if not is_acyclic(desc):
+            return None            # (only in hand-written / older replay files: generated edits keep the graph a DAG)
         ev = bm.Evaluator(ws, desc)
         cmds = ev.evaluate(roots)
         if not r.ok:
